@@ -169,8 +169,13 @@ CHECKS = {
              "in a window of 3; every stream is executed against the real ingest chains (customize pub, RTSP ANNOUNCE / "
              "SETUP / RECORD with interleaved RTP, PsUnpacker) plus long-run drift, size and cut-offset cases, and the "
              "FLV subscriber's output is decided by TLC against Conforms.",
-        note="<= 2 real video frames per enumerated stream (120 / 2000 frames in generated runs); one perturbation per run; "
-             "RTSP binding is interleaved TCP only; the PS binding bypasses the gb28181.PubSession socket loop.",
+        note="<= 2-3 real video frames per enumerated stream (120 / 600 / 2000 frames in generated runs); one perturbation per "
+             "run; source clocks are 48-bit and reduced to the wire width (RTP 2^32, PES PTS/DTS 2^33, AvPacket int64 "
+             "unreduced); timestamp regions near 0 / across 2^31 / across 2^32 / above 2^32 / across 2^33 / Unix-epoch ms for "
+             "every (video, audio) pair; wrap rule: per track the output is the clock in ms up to one constant mod 2^32 "
+             "either as the clock runs on or as the wire field itself (its own jump of -2^32 / -2^33 ticks at the wrap, "
+             "nothing else); at most one wrap per run; PTS - DTS constant per track (no B-frames); RTSP binding is "
+             "interleaved TCP only; the PS binding bypasses the gb28181.PubSession socket loop.",
         ref="6/C07"),
     "C15": dict(
         technique="TLA+ spec Backpressure (bounded queue of multi-part elements / write in flight / wire; fine-grained model + "
